@@ -15,7 +15,9 @@ FUNCTIONS = [("pandapower.create.trafo_create", "create_transformer"), ("pandapo
              ("pandapower.create.trafo_create", "create_transformer3w"), ("pandapower.create.trafo_create", "create_transformers3w"),
              ("pandapower.create.trafo_create", "create_transformers3w_from_parameters"),
              ("pandapower.create.line_create", "create_line"), ("pandapower.create.line_create", "create_lines"),
-             ("pandapower.create.line_create", "create_lines_from_parameters")]
+             ("pandapower.create.line_create", "create_lines_from_parameters"),
+             ("pandapower.create.load_create", "create_loads"), ("pandapower.create.sgen_create", "create_sgens"),
+             ("pandapower.create.storage_create", "create_storages"), ("pandapower.create._utils", "_add_to_entries_if_not_nan")]
 STUBS = ["table-writing boundary: _set_entries / _set_multiple_entries / _set_value_if_not_nan / _add_to_entries_if_not_nan results are "
          "captured with their (symbolic) values instead of being cast into typed DataFrame columns"]
 ASSUMPTIONS = ["standard-type values are symbolic reals in [0.1, 200]; tap_neutral/tap_min/tap_max/tap_pos and string parameters are concrete "
@@ -211,6 +213,46 @@ def make_line_list(present_per_type):
             _compare(ctx, singles[k], {kk: _row(v, k) for kk, v in raw.items()}, f"line{k}")
     return fn
 
+PQ_KINDS = {"load": ("pandapower.create.load_create", "create_load", "create_loads", {}),
+            "sgen": ("pandapower.create.sgen_create", "create_sgen", "create_sgens", {}),
+            "storage": ("pandapower.create.storage_create", "create_storage", "create_storages", {"max_e_mwh": 5.})}
+
+
+DOCUMENTED_DEFAULT = {"generator_type": "current_source"}
+
+
+def make_pq_batch(kind, n=3):
+    """create_loads / create_sgens / create_storages against one single call per element, on the real tables: each element's optional
+    `controllable` flag is True, False or not given (NaN) - which of the three is decided by a symbolic selector, so every mix is a
+    feasible path - and the optional limit columns are given for some elements only; every column of the two tables must agree"""
+    def fn(ctx):
+        modname, single_name, batch_name, extra = PQ_KINDS[kind]
+        mod = ctx.load(modname)
+        sel = [ctx.var(f"controllable_selector{k}", 0., 3.) for k in range(n)]
+        vals = [True if bool(s < 1.) else (False if bool(s < 2.) else np.nan) for s in sel]
+        sel_l = [ctx.var(f"limit_selector{k}", 0., 2.) for k in range(n)]
+        lims = [0.5 + k if bool(s < 1.) else np.nan for k, s in enumerate(sel_l)]
+        p = [1.0 + 0.25 * k for k in range(n)]
+        q = [0.1 * (k + 1) for k in range(n)]
+        net1, net2 = pp.create_empty_network(), pp.create_empty_network()
+        for net in (net1, net2):
+            pp.create_bus(net, 20.)
+        for k in range(n):
+            getattr(mod, single_name)(net1, 0, p_mw=p[k], q_mvar=q[k], controllable=vals[k], max_p_mw=lims[k], **extra)
+        getattr(mod, batch_name)(net2, [0] * n, p_mw=p, q_mvar=q, controllable=vals, max_p_mw=lims, **{kk: [v] * n for kk, v in extra.items()})
+        t1, t2 = net1[kind], net2[kind]
+        ctx.true("same_number_of_rows", len(t1) == len(t2) == n)
+        for col in sorted((set(t1.columns) | set(t2.columns)) - {"name"}):
+            for k in range(n):
+                a = t1[col].iloc[k] if col in t1.columns else np.nan
+                b = t2[col].iloc[k] if col in t2.columns else np.nan
+                na, nb = bool(pd.isna(a)) or a == "", bool(pd.isna(b)) or b == ""     # an empty label is "" in one table and None in the other
+                if col in DOCUMENTED_DEFAULT:       # a column the single call only creates when the value is given; absent means the default
+                    a, na = (DOCUMENTED_DEFAULT[col], False) if na else (a, na)
+                    b, nb = (DOCUMENTED_DEFAULT[col], False) if nb else (b, nb)
+                ctx.true(f"element{k}/{col}_equal_in_single_and_batch", (na and nb) or (not na and not nb and a == b))
+    return fn
+
 
 def instances(tier):
     out = []
@@ -241,6 +283,9 @@ def instances(tier):
         mixes += [("alpha_in_one_only", [all_l - {"alpha"}, all_l]), ("three_types", [all_l, set(), all_l - zero])]
     for nm, prs in mixes:
         out.append(Inst(f"lines_type_list_{nm}", make_line_list(prs), nvars=40, samples=2, meta=dict(kind="line", std_type="list", present=[sorted(p) for p in prs])))
+    for kind in PQ_KINDS:
+        out.append(Inst(f"{kind}s_optional_columns", make_pq_batch(kind, 2 if tier == "quick" else 3), nvars=8, samples=3, max_paths=400,
+                        meta=dict(kind=kind, columns="controllable in {True, False, not given} and max_p_mw in {given, not given} per element")))
     return out
 
 
@@ -248,4 +293,4 @@ LEVEL_TEXT = ("Translation validation of the batch create functions against the 
               "values are symbolic, up to the table-writing boundary, and the solver shows that every electrical column receives the same "
               "term in both, for all type values and each enumerated key-presence pattern.")
 LEVEL_NOTE = ("Trusted: the table-writing helpers (captured, not executed), pandas casts of the concrete integer/string parameters, z3. "
-              "Bounds: one element per call; trafo, trafo3w and line (the pairs that take values from a standard type).")
+              "Bounds: one element per call; trafo, trafo3w and line (the pairs that take values from a standard type); load, sgen and storage for the optional columns (real tables, concrete p/q, presence patterns forked symbolically).")
